@@ -14,7 +14,9 @@ import (
 // comments, for every placement of whitespace, line breaks and ';' comments, and rejects anything else.
 
 var hexSpaces = []string{" ", "\t", "  ", " \t ", " ", " ", "　", "\v", "\f", "\u0085"}
-var commentBodies = []string{"", " tag=1, varint", " 08 64 A2", ";;", " ; nested ; comment", " \"foo\" 0xFF", " value=100\t\tdeadbeef", " ünïcödé ✓", " g h i - #", "\t"}
+var commentBodies = []string{"", " tag=1, varint", " 08 64 A2", ";;", " ; nested ; comment", " \"foo\" 0xFF", " value=100\t\tdeadbeef", " ünïcödé ✓", " g h i - #", "\t",
+	// a carriage return that is not followed by a line feed does not end a line (lines are separated by \n): it belongs to the comment
+	" tag=1\r 96 01", "\r", " note\rzz", "\rAB ; x", " \v 0F \f 1E"}
 var badChars = func() []string {
 	out := []string{"g", "G", "x", "X", "#", "-", ",", ".", "0x", "h", "_", "/", ":", "'", "\"", "é", "z", "[", "\\", "@", "`", "{", "~", "\x7f"}
 	// every control character that is not white space (a digit classifier that folds case with c|0x20 maps
